@@ -244,6 +244,9 @@ func (p *Parser) parseTaxa() (int64, map[string]bool, error) {
 		switch tok {
 		case ENDOFLINE:
 			continue
+		case ENDOFCOMMAND:
+			// Empty command (";;"): nothing to skip
+			continue
 		case ILLEGAL:
 			err = fmt.Errorf("found illegal token %q", lit)
 			stoptaxa = true
@@ -339,6 +342,8 @@ func (p *Parser) parseData() (names []string, sequences map[string]string, nchar
 		tok, lit := p.scanIgnoreWhitespace()
 		switch tok {
 		case ENDOFLINE:
+		case ENDOFCOMMAND:
+			// Empty command (";;"): nothing to skip
 		case ILLEGAL:
 			err = fmt.Errorf("found illegal token %q", lit)
 			stopdata = true
